@@ -514,6 +514,9 @@ class Evaluator:
     # -- typing -----------------------------------------------------------------------
     def set_type(self, t: Term, c: Optional[ClassInfo]):
         if c is not None:
+            old = self.types.get(t)
+            if old is not None and old is not c and c in old.mro():
+                return          # already known more precisely (a parameter annotated with the interface does not widen what is known about the argument)
             self.types[t] = c
 
     def ann_class(self, ann: Optional[ast.expr], module: ModuleInfo) -> Optional[ClassInfo]:
@@ -663,6 +666,12 @@ class Evaluator:
             if isinstance(st, ast.Expr):
                 if isinstance(st.value, ast.Constant):
                     continue
+                sv = st.value
+                if isinstance(sv, ast.Call) and isinstance(sv.func, ast.Attribute) and isinstance(sv.func.value, ast.Name) \
+                        and sv.func.attr in ("append", "extend", "insert", "add", "update", "remove", "pop", "clear", "sort", "reverse", "setdefault", "appendleft") \
+                        and fr.env.get(sv.func.value.id, ("?",))[0] in ("list", "dict", "set", "comp", "dictcomp", "concat"):
+                    # the value view cannot follow a container that statements fill in place: say so instead of answering with its initial content
+                    raise Unsupported(f"local container '{sv.func.value.id}' is changed in place by {sv.func.attr}(): read path by path")
                 v = self.expr(st.value, fr)
                 self.effects.append((live, st, v))
                 continue
@@ -1228,6 +1237,17 @@ class Evaluator:
                     return self.ann_elem_class(f.node.returns, f.module)
         if it[0] == "call" and it[1] in ("reversed", "list", "sorted", "tuple", "iter", "tqdm") and it[2]:
             return self.elem_type(it[2][0])
+        if it[0] == "var" and len(it) == 4:
+            return self.elem_type(it[3])
+        if it[0] == "comp" and it[1] in ("list", "gen", "set") and len(it[3]) >= 1:
+            # [f(x) for x in D]: the class of f(x) with x an element of D
+            for dom, _ in it[3]:
+                ec = self.elem_type(dom)
+                if ec is not None:
+                    for b in subterms(it[2], lambda y: y[0] == "bound" and y[-1] == show(dom)):
+                        if b not in self.types:
+                            self.set_type(b, ec)
+            return self.type_of(it[2])
         return None
 
     def truthy(self, v: Term) -> Term:
@@ -1464,8 +1484,8 @@ class Evaluator:
                         callee = self.expr(tgt_[1], Frame(None, tgt_[2], {}, None, fr.depth + 1))
                     except Unsupported:
                         callee = None
-            if callee is not None and callee[0] == "call" and (callee[1] in ("partial", "attrgetter", ("global", "partial"), ("global", "attrgetter"))
-                                                                  or (isinstance(callee[1], tuple) and callee[1][-1:] in (("partial",), ("attrgetter",)))):
+            if callee is not None and callee[0] == "call" and (callee[1] in ("partial", "attrgetter", "methodcaller", ("global", "partial"), ("global", "attrgetter"), ("global", "methodcaller"))
+                                                                  or (isinstance(callee[1], tuple) and callee[1][-1:] in (("partial",), ("attrgetter",), ("methodcaller",)))):
                 # a local name bound to ``partial(..)`` / ``attrgetter(..)`` is that callable
                 got = self.apply_callable(callee, args[0], fr, tuple(args[1:]))
                 if got is not None:
@@ -1706,6 +1726,15 @@ class Evaluator:
             for part in f[2][0][1].split("."):
                 v = self.attr(v, part, fr)
             return v
+        if f[0] == "call" and (f[1] == "methodcaller" or f[1] == ("global", "methodcaller") or (isinstance(f[1], tuple) and f[1][-1:] == ("methodcaller",))) \
+                and f[2] and f[2][0][0] == "const" and isinstance(f[2][0][1], str) and not more:
+            # operator.methodcaller('m', *a, **k)(x) is x.m(*a, **k)
+            bc_ = self.type_of(arg)
+            if bc_ is not None:
+                fs_ = bc_.resolve_all(f[2][0][1])
+                if len(fs_) == 1 and fs_[0].kind in ("method", "staticmethod", "classmethod"):
+                    return self.call_function(fs_[0], arg, bc_, list(f[2][1:]), list(f[3]), fr)
+            return ("call", ("attr", arg, f[2][0][1]), tuple(f[2][1:]), tuple(f[3]))
         if f[0] == "call" and (f[1] == "partial" or f[1] == ("global", "partial") or (isinstance(f[1], tuple) and f[1][-1:] == ("partial",))) and f[2]:
             # functools.partial(g, *a, **k)(x) is g(*a, x, **k)
             base, pre, kw = f[2][0], list(f[2][1:]), list(f[3])
